@@ -684,6 +684,16 @@ def g_param(meta):
             return [[float(v) for v in r] for r in P]
         if st == "matrix":
             return np.matrix(P, dtype=float)
+        if st == "fortran":
+            return np.asfortranarray(np.array(P, dtype=float))
+        if st == "view":              # non-contiguous view into a larger array
+            big = np.full((2 * n + 1, 2 * n + 1), np.nan)
+            big[1::2, 1::2] = np.array(P, dtype=float)
+            return big[1::2, 1::2]
+        if st == "readonly":
+            A = np.array(P, dtype=float)
+            A.setflags(write=False)
+            return A
         return np.array(P, dtype=float)
     if gk == "spdiag":
         M = spa.diags(np.array(P, dtype=float))
@@ -735,6 +745,19 @@ def g_observe(cuqi, meta):
             except (ValueError, TypeError, NotImplementedError, np.linalg.LinAlgError) as e:
                 return {"outcome": "refused_init", "err": repr(e)[:200]}
             x = np.array(meta["x"], dtype=float)
+            if meta.get("x_style") == "int" and all(float(v).is_integer() for v in meta["x"]):
+                x = np.array([int(v) for v in meta["x"]])
+            elif meta.get("x_style") == "view":
+                big = np.full(2 * n + 1, np.nan)
+                big[1::2] = x
+                x = big[1::2]
+            elif meta.get("x_style") == "readonly":
+                x.setflags(write=False)
+            if "reassign_to" in meta:           # object reuse: the parameter is re-assigned on the live object, then evaluated
+                d.logpdf(x)
+                setattr(d, form, g_param(dict(meta, P=meta["reassign_to"])))
+                if "reassign_mean" in meta:
+                    d.mean = np.array(meta["reassign_mean"], dtype=float)
             try:
                 m = meta["method"]
                 if via == "logd_mean":
@@ -850,9 +873,23 @@ def g_oracle(meta, ob):
     return None, ""
 
 
+def g_effective(meta):
+    """the parameters the evaluation refers to: after a re-assignment on the live object, the re-assigned ones"""
+    if "reassign_to" not in meta:
+        return meta
+    eff = {k: v for k, v in meta.items() if k not in ("reassign_to", "reassign_mean")}
+    eff["P"] = meta["reassign_to"]
+    eff["mean"] = meta.get("reassign_mean", meta["mean"])
+    eff["constructed_with"] = meta["P"]
+    return eff
+
+
 def g_case(ctx, cuqi, state, cases, stats, meta, cell):
     ob = g_observe(cuqi, meta)
-    meta = dict(meta, observed=ob)
+    replay_meta = meta
+    meta = dict(g_effective(meta), observed=ob)
+    if "reassign_to" in replay_meta:
+        meta["replay_meta"] = replay_meta
     fail, sig = g_oracle(meta, ob)
     n, form, gk = meta["dim"], meta["form"], meta["gkind"]
     F, K = GFORMS[form], GKINDS[gk]
@@ -944,19 +981,23 @@ SIG_CDF_SPARSE = "Gaussian.cdf|sparse-cov:raises"
 
 
 def mvn_cdf_ref(mu, S, x):
-    """independent reference for the 1-d / 2-d Gaussian cdf: Phi, and for 2-d the conditional decomposition
-    P = int_{-inf}^{x1} phi(t; mu1, s11) Phi((x2 - mu2 - s12/s11 (t - mu1)) / sqrt(s22 - s12^2/s11)) dt  (quadrature, math.erf)"""
+    """independent reference for the 1-, 2- and 3-d Gaussian cdf: Phi in 1-d; otherwise condition on the first coordinate,
+    P = int_{-inf}^{x1} phi(t; mu1, s11) P_rest(x_rest | X1 = t) dt   (nested quadrature, math.erf at the bottom)"""
     from scipy.integrate import quad
     Phi = lambda z: 0.5 * (1 + math.erf(z / math.sqrt(2)))
-    if len(x) == 1:
+    n = len(x)
+    if n == 1:
         return Phi((x[0] - mu[0]) / math.sqrt(S[0][0]))
-    s11, s12, s22 = S[0][0], S[0][1], S[1][1]
-    sc = math.sqrt(s22 - s12 * s12 / s11)
-    f = lambda t: math.exp(-(t - mu[0]) ** 2 / (2 * s11)) / math.sqrt(2 * math.pi * s11) * Phi((x[1] - mu[1] - s12 / s11 * (t - mu[0])) / sc)
+    s11 = S[0][0]
+    Sc = [[S[i][j] - S[i][0] * S[0][j] / s11 for j in range(1, n)] for i in range(1, n)]       # conditional covariance
+    def f(t):
+        mc = [mu[i] + S[i][0] / s11 * (t - mu[0]) for i in range(1, n)]
+        return math.exp(-(t - mu[0]) ** 2 / (2 * s11)) / math.sqrt(2 * math.pi * s11) * mvn_cdf_ref(mc, Sc, x[1:])
     lo = mu[0] - 12 * math.sqrt(s11)
     if x[0] <= lo:
         return 0.0
-    return quad(f, lo, x[0], epsabs=1e-13, epsrel=1e-12, limit=400)[0]
+    tol = 1e-13 if n == 2 else 1e-9
+    return quad(f, lo, x[0], epsabs=tol, epsrel=tol, limit=400)[0]
 
 
 def to_dense_list(A):
@@ -1035,7 +1076,7 @@ def gcov_case(ctx, cuqi, state, cases, stats, meta, cell):
             sig = SIG_CDF_SCALAR_MEAN if (len(meta["mean"]) == 1 and n > 1) else (SIG_CDF_SPARSE if (form == "cov" and gk == "spdiag") else "Gaussian.cdf|%s:%s:raises" % (form, gk))
         else:
             ref = mvn_cdf_ref(bc(meta["mean"], n), Sf, meta["x"])
-            if not abs(ob["cdf"] - ref) <= 2e-4 * max(ref, 1e-3) + 2e-6:
+            if not abs(ob["cdf"] - ref) <= (2e-4 if n <= 2 else 2e-3) * max(ref, 1e-3) + 2e-6:
                 fail = "Gaussian(%s=<%s>).cdf(%s) = %r but the integral of its own density is %r" % (form, gk, meta["x"], ob["cdf"], ref)
                 sig = "Gaussian.cdf|%s:%s" % (form, gk)
     stats["gaussian_cov"] = stats.get("gaussian_cov", 0) + 1
@@ -1065,7 +1106,7 @@ def gaussian_cov_cdf_cases(ctx, cuqi, state, cases, stats):
                     for j in ([0] if not (gk == "densefull" and thr is None) else [0, -17, 17]):
                         counter += 1
                         sd = [rng.choice([0.5, 1.0, 2.0, 4.0]) for _ in range(n)]
-                        meta = {"kind": "gcov", "form": form, "gkind": gk, "dim": n, "x": pt(n), "cdf": n <= 2,
+                        meta = {"kind": "gcov", "form": form, "gkind": gk, "dim": n, "x": pt(n), "cdf": n <= 2 or (gk in ("densefull", "vector") and j == 0),
                                 "mean": pt(n) if (counter % 3 or n == 1) else pt(1)}
                         if thr:
                             meta["thr"] = thr
@@ -1212,6 +1253,76 @@ def gaussian_signed_factor_cases(ctx, cuqi, state, cases, stats):
                     cases[-1].signature = "Gaussian.logpdf|forms-disagree:signed-factor"
 
 
+SIG_OFFSUPPORT = "Gaussian.cov|rank-deficient:finite-density-off-the-support"
+SIG_ALIAS = "Gaussian|aliases-caller-array:cov-mutated-after-construction"
+
+
+def gaussian_lessons_cases(ctx, cuqi, state, cases, stats):
+    """object reuse after attribute re-assignment; dtype / layout of the evaluation point; aliasing of the caller's arrays"""
+    rng = ctx.rng
+    pt = lambda n: [rng.randint(-16, 16) / 8 for _ in range(n)]
+    ipt = lambda n: [float(rng.randint(-3, 3)) for _ in range(n)]
+    counter = 0
+    def spd(n):
+        U = rand_unit_lower(rng, n)
+        U[n - 1][0] = rng.choice([-1, 1])
+        D = [rng.choice([0.5, 1.0, 2.0]) for _ in range(n)]
+        L = [[Fraction(U[i][k]) * frac(D[k]) for k in range(n)] for i in range(n)]
+        Ui = inv_unit_lower(U)
+        Li = [[Ui[i][k] / frac(D[i]) for k in range(n)] for i in range(n)]
+        return L, Li
+    def param(form, gk, n):
+        if gk == "densefull":
+            L, Li = spd(n)
+            Mx = {"cov": fr_mm(L, fr_T(L)), "prec": fr_mm(fr_T(Li), Li), "sqrtcov": fr_mm(L, fr_T(L)), "sqrtprec": Li}[form]
+            return [[float(v) for v in r] for r in Mx]
+        sd = [rng.choice([0.5, 1.0, 2.0, 4.0]) for _ in range(1 if gk == "scalar" else n)]
+        return [{"cov": v * v, "prec": 1 / (v * v), "sqrtcov": v, "sqrtprec": 1 / v}[form] for v in sd]
+    for n in (2, 3):
+        for form in GFORMS:
+            for gk in ("scalar", "vector", "densefull"):
+                for thr in (None, 1):
+                    counter += 1
+                    meta = {"kind": "gaussian", "form": form, "gkind": gk, "dim": n, "mean": pt(n), "via": "direct", "method": ["logpdf", "logd", "pdf"][counter % 3],
+                            "P": param(form, gk, n), "reassign_to": param(form, gk, n), "x": ipt(n) if counter % 2 else pt(n),
+                            "x_style": ["int", "view", "readonly", "array"][counter % 4], "storage": "float" if gk == "scalar" else "array"}
+                    if counter % 2:
+                        meta["reassign_mean"] = pt(n)
+                    if thr:
+                        meta["thr"] = thr
+                    g_case(ctx, cuqi, state, cases, stats, meta, "Gaussian/%s/%s/reassigned-on-live-object%s/x-%s" % (form, gk, "/thr=1" if thr else "", meta["x_style"]))
+    # aliasing: the caller keeps the array it passed and modifies it in place after construction
+    import io, contextlib
+    for n in (2, 3):
+        for form in ("cov", "prec"):
+            for gk in ("vector", "densefull"):
+                P0 = param(form, gk, n)
+                mean, x = pt(n), pt(n)
+                A = np.array(P0, dtype=float)
+                with warnings.catch_warnings(), contextlib.redirect_stdout(io.StringIO()):
+                    warnings.simplefilter("ignore")
+                    d = cuqi.distribution.Gaussian(np.array(mean), **{form: A})
+                    xa = np.array(x)
+                    lp0 = float(np.ravel(d.logpdf(xa))[0])
+                    A *= 4.0                                   # in-place: the object holds the same array
+                    lp1 = float(np.ravel(d.logpdf(xa))[0])
+                    C = to_dense_list(d.compute_cov())
+                    cdf = float(d.cdf(xa)) if n <= 2 else None
+                meta = {"kind": "galias", "form": form, "gkind": gk, "dim": n, "mean": mean, "x": x, "P": P0,
+                        "observed": {"lp0": lp0, "lp1": lp1, "C": C, "cdf": cdf}}
+                M0 = fr_mat(g_dense(dict(meta)))
+                S0 = M0 if form == "cov" else fr_inv(M0)          # covariance of the density at construction
+                S_after = [[v * 4 for v in r] for r in S0] if form == "cov" else S0       # what compute_cov returns: cov form hands back the caller's (modified) array
+                consistent = all(abs(C[i][j] - float(S0[i][j])) <= 1e-9 * max(abs(float(v)) for r in S0 for v in r) for i in range(n) for j in range(n))
+                fail = None
+                if lp1 != lp0 or not consistent:
+                    fail = ("Gaussian(%s=A) keeps the caller's array: after A *= 4 logpdf %s (%r -> %r) but compute_cov() = %s: cdf / cov no longer belong to the density" % (
+                            form, "unchanged" if lp1 == lp0 else "changed", lp0, lp1, C))
+                expr = "qmat_close (1 # 1000000000) %s %s && %s" % (cqm(C), cqm(S_after), cbool(lp1 == lp0))
+                cases.append(Case(expr=expr, kind="EXACT", meta=meta, cell="Gaussian/%s/%s/caller-array-modified-in-place" % (form, gk), impl_fail=fail, signature=SIG_ALIAS if fail else ""))
+                stats["gaussian"] = stats.get("gaussian", 0) + 1
+
+
 def gaussian_switch_cases(ctx, cuqi, state, cases, stats):
     """(a) every storage kind on the SPARSE side of the switch at small dims (threshold lowered through cuqi.config.MIN_DIM_SPARSE),
     (b) rank-deficient full matrices on both sides, (c) sqrtprec as a scipy LinearOperator"""
@@ -1316,6 +1427,29 @@ def gaussian_switch_cases(ctx, cuqi, state, cases, stats):
                     m = "(gauss_canon %s (ln %s) %s)" % (cnat(r), cr(1 / pdet), cr(quad))
                 expr, tac = encl(m, ob["value"], cert="(%s)" % cert)
                 cases.append(Case(expr=expr, tac=tac, kind="ENCLOSURE", meta=meta, cell=cell, impl_fail=fail, signature=sig))
+                if form in ("cov", "sqrtcov"):
+                    # OFF the support: x - mean outside the range of the covariance.  The degenerate Gaussian puts no mass there (density 0,
+                    # logpdf -inf, scipy's convention for singular covariances); the code returns the density of the projection onto the support.
+                    for k in range(n):
+                        e = [Fraction(int(i == k)) for i in range(n)]
+                        Baug = [row + [e[i]] for i, row in enumerate(B)]
+                        if fr_solve_det(fr_mm(fr_T(Baug), Baug), [Fraction(0)] * (r + 1))[1] != 0:
+                            break
+                    d2 = [di + ei for di, ei in zip(d, e)]
+                    meta2 = dict({kk: vv for kk, vv in meta.items() if kk != "observed"}, x=[float(frac(mm) + di) for mm, di in zip(mean, d2)], off_support=True)
+                    ob2 = g_observe(cuqi, meta2)
+                    meta2["observed"] = ob2
+                    v2 = ob2.get("value")
+                    if ob2["outcome"] == "value" and v2 is not None and math.isfinite(v2):
+                        z2 = fr_mv(G, fr_mv(fr_T(B), d2))
+                        q2 = fr_dot(z2, z2)
+                        cert2 = "%s && gauss_psd_cert %s %s %s %s %s %s %s %s %s" % (dec, cnat(n), cnat(r), cqm(Sg), cqm(B), cqm(G), cql(d2), cq(pdet), cq(q2), cnat(ob2["rank"]))
+                        e2, t2 = encl("(gauss_canon %s (ln %s) %s)" % (cnat(r), cr(pdet), cr(q2)), v2, cert="(%s)" % cert2)
+                        cases.append(Case(expr=e2, tac=t2, kind="ENCLOSURE", meta=meta2, cell=cell + "/off-support",
+                                          impl_fail="Gaussian(%s=<rank %d of %d>).logpdf at a point OFF the support (x - mean outside the range of the covariance) = %r, the degenerate Gaussian has density 0 there" % (form, r, n, v2),
+                                          signature=SIG_OFFSUPPORT))
+                    else:
+                        cases.append(Case(expr=cbool(v2 == -math.inf), kind="DECISION", meta=meta2, cell=cell + "/off-support"))
     # (c) sqrtprec given as a LinearOperator: rank = dim, logdet = its `logdet` attribute (None -> logpdf refused)
     for n in (2, 3):
         for has in (True, False):
@@ -1500,7 +1634,7 @@ def gaussian_cases(ctx, cuqi, state, cases, stats):
                                         break
                         meta["P"] = [[float(v) for v in r] for r in Mx]
                     if gk in ("densediag", "densefull") and n > 1:
-                        meta["storage"] = ["array", "nested-list", "matrix"][counter % 3]
+                        meta["storage"] = ["array", "nested-list", "matrix", "fortran", "view", "readonly"][counter % 6]
                     vias = ["direct"] + ([["cond_mean", "callable", "logd_mean"][counter % 3]] if gk in ("scalar", "vector", "densefull") else [])
                     for via in vias:
                         for method in (["logpdf", "logd", "pdf", "logupdf"] if via == "direct" else ["logpdf"]):
@@ -1606,6 +1740,7 @@ def gaussian_cases(ctx, cuqi, state, cases, stats):
 BCS = {"zero": "BZero", "periodic": "BPeriodic", "neumann": "BNeumann"}
 SIG_GMRF0 = "GMRF.logpdf|order0-periodic/neumann:rank-dim-1"
 SIG_GMRF2N = "GMRF.logpdf|order2-neumann:rank-and-logdet"
+SIG_GMRF_LARGE = "GMRF.logpdf|dim>MAX_DIM_INV:periodic/neumann:logdet-of-regularised-precision"
 
 
 def fr_pdet(A, k):
@@ -1624,6 +1759,43 @@ def fr_pdet(A, k):
     return c[k] if (n - k) % 2 == 0 else -c[k]
 
 
+def doc_diff_1d(order, bc, N):
+    """the DOCUMENTED 1-d difference operator as a list of rows (plain Python, independent of cuqi.operator and of the Coq model):
+    order 0 identity; order 1 rows x_k - x_{k-1}; order 2 rows -x_k + 2 x_{k-1} - x_{k-2}; zero b.c.: values outside the grid are 0
+    (N+order rows); periodic: indices modulo N (N+order rows, the wrap-around differences accumulate); neumann: only the
+    differences that stay inside the grid (N-order rows)"""
+    if order == 0:
+        return [[1 if i == j else 0 for j in range(N)] for i in range(N)]
+    stencil = {1: [(0, 1), (-1, -1)], 2: [(0, -1), (-1, 2), (-2, -1)]}[order]
+    rows = []
+    if bc == "neumann":
+        for k in range(order, N):
+            r = [0] * N
+            for off, c in stencil:
+                r[k + off] += c
+            rows.append(r)
+        return rows
+    for k in range(N + order):
+        r = [0] * N
+        for off, c in stencil:
+            j = k + off
+            if bc == "periodic":
+                r[j % N] += c
+            elif 0 <= j < N:
+                r[j] += c
+        rows.append(r)
+    return rows
+
+
+def doc_diff(order, bc, N, twod):
+    D = doc_diff_1d(order, bc, N)
+    if not twod:
+        return D
+    I = [[1 if i == j else 0 for j in range(N)] for i in range(N)]
+    kron = lambda A, B: [[a * b for a in ra for b in rb] for ra in A for rb in B]
+    return kron(I, D) + kron(D, I)
+
+
 def mrf_build(cuqi, meta):
     import io, contextlib
     fam, N, twod = meta["family"], meta["N"], meta["twod"]
@@ -1634,11 +1806,17 @@ def mrf_build(cuqi, meta):
     else:
         geom = {"int": N, "Continuous1D": cuqi.geometry.Continuous1D(N)}[meta["geom"]]
     par = meta["par"] if meta.get("par_iface", "float") == "float" else np.array([meta["par"]])
+    old_max = cuqi.config.MAX_DIM_INV
     with contextlib.redirect_stdout(io.StringIO()), warnings.catch_warnings():
         warnings.simplefilter("ignore")
-        if fam == "GMRF":
-            return cuqi.distribution.GMRF(loc, par, meta["bc"], meta["order"], geometry=geom)
-        return getattr(cuqi.distribution, fam)(loc, meta["par"], meta["bc"], geometry=geom)
+        try:
+            if "max_dim_inv" in meta or "max_dim_inv_exact_side" in meta:
+                cuqi.config.MAX_DIM_INV = meta.get("max_dim_inv", meta.get("max_dim_inv_exact_side"))
+            if fam == "GMRF":
+                return cuqi.distribution.GMRF(loc, par, meta["bc"], meta["order"], geometry=geom)
+            return getattr(cuqi.distribution, fam)(loc, meta["par"], meta["bc"], geometry=geom)
+        finally:
+            cuqi.config.MAX_DIM_INV = old_max
 
 
 def mrf_observe(cuqi, meta):
@@ -1647,8 +1825,9 @@ def mrf_observe(cuqi, meta):
     with np.errstate(all="ignore"), warnings.catch_warnings():
         warnings.simplefilter("ignore")
         v = getattr(d, meta["method"])(x)
-    D = np.asarray(d._diff_op.get_matrix().todense(), dtype=float)
-    out = {"value": float(np.ravel(v)[0]), "D": D.tolist()}
+    # the oracle's reference operator is its OWN statement of the documented stencils (doc_diff), not the object's operator
+    D = doc_diff(meta["order"] if meta["family"] == "GMRF" else 1, meta["bc"], meta["N"], meta["twod"])
+    out = {"value": float(np.ravel(v)[0]), "D": [[float(e) for e in r] for r in D]}
     if meta["family"] == "GMRF":
         out["rank"] = int(d._rank)
     return out
@@ -1682,10 +1861,13 @@ def mrf_case(ctx, cuqi, state, cases, stats, meta, cell):
     exp = mrf_documented(meta, D)
     v = ob["value"]
     fail, sig = None, ""
-    if not (close_rel(v, exp, 1e-7) if meta["method"] == "pdf" else close(v, exp, 1e-8)):
+    if not (close_rel(v, exp, 1e-7) if meta["method"] == "pdf" else close(v, exp, 1e-6 if "max_dim_inv" in meta else 1e-8)):
         fail = "%s(%s, %s, bc=%s%s, %s).%s(%s) = %r but the documented density gives %r" % (
             fam, meta["loc"], meta["par"], bcn, ", order=%d" % order if fam == "GMRF" else "", "%dx%d" % (N, N) if twod else N, meta["method"], meta["x"], v, exp)
-        if fam == "GMRF" and order == 0 and bcn in ("periodic", "neumann"):
+        if fam == "GMRF" and "max_dim_inv" in meta and bcn != "zero":
+            sig = SIG_GMRF_LARGE
+            fail += " (dim %d > MAX_DIM_INV = %d: logdet of the regularised precision)" % (dim, meta["max_dim_inv"])
+        elif fam == "GMRF" and order == 0 and bcn in ("periodic", "neumann"):
             sig = SIG_GMRF0
         elif fam == "GMRF" and order == 2 and bcn == "neumann":
             sig = SIG_GMRF2N
@@ -1718,6 +1900,18 @@ def mrf_case(ctx, cuqi, state, cases, stats, meta, cell):
             for i in range(dim):
                 Mi = [[P[r][c] for c in range(dim) if c != i] for r in range(dim) if r != i]
                 detarg += fr_solve_det(Mi, [Fraction(0)] * (dim - 1))[1]
+        if "max_dim_inv" in meta and bcn != "zero":
+            # dim > MAX_DIM_INV: ln det(P + 2^-26 I), minus nullity * ln 2^-26 once fixes/C04_gmrf_large_logdet.diff is applied
+            delta = Fraction(1, 2 ** 26)
+            Pd = [[P[i][j] + (delta if i == j else 0) for j in range(dim)] for i in range(dim)]
+            detarg = fr_solve_det(Pd, [Fraction(0)] * dim)[1]
+            if state["gmrf_large_fixed"]:
+                detarg = detarg / delta ** nullity
+            cert = "gmrf_large_cert %s %s %s %s %s %s %s %s %s %s" % (cbool(state["gmrf_large_fixed"]), cnat(order), B, cbool(twod), cnat(N), cql(meta["loc"]), cql(meta["x"]), cql(dd), cnat(ob["rank"]), cq(detarg))
+            m = "(gmrf_logpdf %s %s %s %s)" % (cnat(ob["rank"]), cr(meta["par"]), cr(detarg), crl(dd))
+            expr, tac = encl(m, v, cert="(%s)" % cert)
+            cases.append(Case(expr=expr, tac=tac, kind="ENCLOSURE", meta=meta, cell=cell, impl_fail=fail, signature=sig))
+            return
         cert = "gmrf_cert_v %s %s %s %s %s %s %s %s %s %s" % (cbool(rk_fixed), cnat(order), B, cbool(twod), cnat(N), cql(meta["loc"]), cql(meta["x"]), cql(dd), cnat(ob["rank"]), cq(detarg))
         m = "(gmrf_logpdf %s %s %s %s)" % (cnat(ob["rank"]), cr(meta["par"]), cr(detarg), crl(dd))
     else:
@@ -1757,6 +1951,27 @@ def mrf_cases(ctx, cuqi, state, cases, stats):
                             for method in methods:
                                 m2 = dict(meta, method=method, x=[rng.randint(-8, 8) / 4 for _ in range(dim)])
                                 mrf_case(ctx, cuqi, state, cases, stats, m2, "%s/%s/order%d/%s/%s" % (fam, bcn, order, "2d" if twod else "1d", method))
+
+
+def mrf_threshold_cases(ctx, cuqi, state, cases, stats):
+    """GMRF on both sides of, and exactly at, cuqi.config.MAX_DIM_INV (lowered through the config module): dim = T-1, T (exact
+    eigenvalue route) and T+1... i.e. T = dim+1, dim, dim-1"""
+    if not state["gmrf_rank_fixed"]:
+        return
+    rng = ctx.rng
+    for bcn in ("zero", "periodic", "neumann"):
+        for order in (0, 1, 2):
+            for twod, N in ((False, 5), (True, 3)):
+                dim = N * N if twod else N
+                for T in ((dim + 1, dim, dim - 1) if (order == 1 or ctx.thorough) else (dim, dim - 1)):
+                    meta = {"kind": "mrf", "family": "GMRF", "bc": bcn, "order": order, "twod": twod, "N": N,
+                            "loc": [rng.randint(-8, 8) / 4], "par": rng.randint(2, 24) / 8, "par_iface": "float", "geom": "tuple" if twod else "int",
+                            "method": "logpdf", "x": [rng.randint(-8, 8) / 4 for _ in range(dim)]}
+                    if T < dim:
+                        meta["max_dim_inv"] = T
+                    else:
+                        meta["max_dim_inv_exact_side"] = T
+                    mrf_case(ctx, cuqi, state, cases, stats, meta, "GMRF/%s/order%d/%s/logpdf/MAX_DIM_INV=dim%+d" % (bcn, order, "2d" if twod else "1d", T - dim))
 
 
 def mrf_magnitude_cases(ctx, cuqi, state, cases, stats):
@@ -1819,13 +2034,30 @@ def witness_values(cuqi):
                 w[key] = float(mk().cdf(np.zeros(2)))           # documented: 1/4
             except Exception as e:
                 w[key] = "raises " + repr(e)[:80]
+        Aw = np.array([[4.0, 1.0], [1.0, 4.0]])
+        gw = D.Gaussian(np.zeros(2), cov=Aw)
+        a0 = float(np.ravel(gw.logpdf(np.array([1.0, 0.0])))[0])
+        Aw *= 4.0
+        w["alias"] = [a0, float(np.ravel(gw.logpdf(np.array([1.0, 0.0])))[0]), float(np.asarray(gw.compute_cov())[0][0]) / 4.0]
         old_thr = cuqi.config.MIN_DIM_SPARSE
         try:
             cuqi.config.MIN_DIM_SPARSE = 1
+            try:
+                w["offsupport"] = float(np.ravel(D.Gaussian(np.zeros(2), cov=np.array([[1.0, 1.0], [1.0, 1.0]])).logpdf(np.array([1.0, 0.0])))[0])
+            except Exception as e:
+                w["offsupport"] = "raises " + repr(e)[:60]
             Pw = np.array([[1.0, 2, -2, 1], [2, 4, -4, 2], [-2, -4, 4, -2], [1, 2, -2, 5]])
             w["psd_prec"] = float(np.ravel(D.Gaussian(np.zeros(4), prec=Pw).logpdf(np.array([1.0, 0, 0, 0])))[0])
         finally:
             cuqi.config.MIN_DIM_SPARSE = old_thr
+        old_max = cuqi.config.MAX_DIM_INV
+        try:
+            cuqi.config.MAX_DIM_INV = 5
+            gl = D.GMRF(np.zeros(6), 2.0, "periodic", 1)
+            w["gmrf_large"] = float(gl.logpdf(np.zeros(6)))
+        finally:
+            cuqi.config.MAX_DIM_INV = old_max
+        w["gmrf_large_ref"] = float(D.GMRF(np.zeros(6), 2.0, "periodic", 1).logpdf(np.zeros(6)))
         g0 = D.GMRF(np.zeros(5), 2.0, "periodic", 0)
         w["gmrf0"] = float(g0.logpdf(np.zeros(5)))
         w["gmrf0_rank"] = int(g0._rank)                                         # documented: 2.5 (log 2 - log 2 pi)
@@ -1844,7 +2076,8 @@ def detect_state(cuqi):
             "dia_fixed": w["dia"] == "refused",
             "logdet_fixed": math.isfinite(w["logdet"]),
             "thr": int(cuqi.config.MIN_DIM_SPARSE),
-            "gmrf_rank_fixed": w["gmrf0_rank"] == 5,       # fixes/C20_gmrf_rank_rule.diff applied?
+            "gmrf_rank_fixed": w["gmrf0_rank"] == 5,
+            "gmrf_large_fixed": abs(w["gmrf_large"] - w["gmrf_large_ref"]) < 1e-4,       # fixes/C20_gmrf_rank_rule.diff applied?
             "witness": w}
 
 
@@ -1875,6 +2108,12 @@ def known_witnesses(ctx):
         "Gaussian(zeros(2), cov=scipy.sparse.diags([1,1])).cdf([0,0]) : %s (documented 1/4)" % (w["cdf_sparse_cov"],))
     out["Gaussian.prec|rank-deficient:sparse-side:sqrt-of-negative-rounding-error"] = (math.isnan(w["psd_prec"]),
         "MIN_DIM_SPARSE=1; Gaussian(zeros(4), prec=<rank 2>).logpdf([1,0,0,0]) = %r (nan when the zero eigenvalues are computed as negative numbers)" % w["psd_prec"])
+    out[SIG_ALIAS] = (w["alias"][0] == w["alias"][1] and abs(w["alias"][2] - 4.0) > 1e-9,
+        "A = diag-free [[4,1],[1,4]]; g = Gaussian(zeros(2), cov=A); A *= 4: logpdf %r -> %r (unchanged) but compute_cov()[0,0] = %r" % tuple(w["alias"]))
+    out[SIG_OFFSUPPORT] = (isinstance(w["offsupport"], float) and math.isfinite(w["offsupport"]),
+        "MIN_DIM_SPARSE=1; Gaussian(zeros(2), cov=[[1,1],[1,1]]).logpdf([1,0]) = %r; [1,0] is outside the support span{(1,1)}" % (w["offsupport"],))
+    out[SIG_GMRF_LARGE] = (abs(w["gmrf_large"] - w["gmrf_large_ref"]) > 1e-4,
+        "cuqi.config.MAX_DIM_INV=5; GMRF(zeros(6),2,'periodic',order=1).logpdf(0) = %r, with the exact eigenvalue route %r" % (w["gmrf_large"], w["gmrf_large_ref"]))
     out[SIG_GMRF0] = (not close(w["gmrf0"], 2.5 * (math.log(2) - LOG2PI)),
         "GMRF(zeros(5),2,'periodic',order=0).logpdf(0) = %r, documented N(0, I/2): %r" % (w["gmrf0"], 2.5 * (math.log(2) - LOG2PI)))
     # order 2 neumann, n = 5: D^T D has eigenvalues with product (non-zero ones) = pdet; true rank 3
@@ -1900,8 +2139,10 @@ def run(ctx):
     gaussian_cov_cdf_cases(ctx, cuqi, state, cases, stats)
     gaussian_switch_cases(ctx, cuqi, state, cases, stats)
     gaussian_signed_factor_cases(ctx, cuqi, state, cases, stats)
+    gaussian_lessons_cases(ctx, cuqi, state, cases, stats)
     mrf_cases(ctx, cuqi, state, cases, stats)
     mrf_magnitude_cases(ctx, cuqi, state, cases, stats)
+    mrf_threshold_cases(ctx, cuqi, state, cases, stats)
     scalar_magnitude_cases(ctx, cuqi, state, cases, stats)
     scalar_cdf_cases(ctx, cuqi, state, cases, stats)
     # spread the expensive cases (76 x 76 exact determinants) over the shards so that they are evaluated in parallel
@@ -1928,12 +2169,18 @@ def recheck(cuqi, meta):
         return {"value": obs, "documented": exp}, fail, sig
     if k == "gaussian" and (meta.get("singular") or meta.get("gkind") == "linop"):
         return g_observe(cuqi, meta), None, ""
+    if k == "gaussian" and "replay_meta" in meta:
+        ob = g_observe(cuqi, meta["replay_meta"])
+        fail, sig = g_oracle(meta, ob)
+        return ob, fail, sig
     if k == "gaussian":
         ob = g_observe(cuqi, meta)
         fail, sig = g_oracle(meta, ob)
         if ob["outcome"] == "value" and not meta.get("malformed"):
             ob["documented"] = g_documented(meta)[meta["method"]]
         return ob, fail, sig
+    if k == "galias":
+        return meta.get("observed"), None, SIG_ALIAS
     if k == "gcov":
         ob = gcov_observe(cuqi, meta)
         tmp, st = [], {}
